@@ -200,6 +200,85 @@ def families(table):
     return fam
 
 
+# ----------------------------------------------------------------------------------------------- variant files
+RINEX_ESSENTIAL = {"RINEX VERSION / TYPE", "END OF HEADER", "SYS / # / OBS TYPES", "# / TYPES OF OBSERV", "TIME OF FIRST OBS",
+                   "PGM / RUN BY / DATE"}
+VARIANT_MAX_BYTES = 120_000
+
+
+def make_variants(text, rng):
+    """[(tag, text)] derived from one example file: optional header / comment records switched on and off.
+    Format-aware ones first (they are kept when the number of variants is capped)."""
+    lines = text.split("\n")
+    out = []
+
+    def emit_v(tag, ls):
+        t = "\n".join(ls)
+        if t != text and t.strip():
+            out.append((tag, t))
+
+    first = lines[0] if lines else ""
+    hdr_end = next((i for i, l in enumerate(lines[:400]) if l[60:].strip() == "END OF HEADER"), None)
+    if first.startswith("%="):                                            # SINEX family (SNX / TMS / TRO)
+        for tag, frame in (("datum_ITRF2014", "ITRF2014"), ("datum_IGS14", "IGS14")):
+            ls = list(lines)
+            if "+FILE/COMMENT" in [l.strip() for l in ls]:
+                k = [l.strip() for l in ls].index("+FILE/COMMENT")
+                ls[k + 1:k + 1] = [f" LOCAL_GEODETIC_DATUM: {frame}"]
+            else:
+                ls[1:1] = ["+FILE/COMMENT", f" LOCAL_GEODETIC_DATUM: {frame}", " variant written by the C16 check", "-FILE/COMMENT"]
+            emit_v(tag, ls)
+        blocks = [l.strip()[1:] for l in lines if l.startswith("+")]
+        for b in (["FILE/COMMENT"] if "FILE/COMMENT" in blocks else []) + rng.sample(blocks, min(3, len(blocks))):
+            ls, skip = [], False
+            for l in lines:
+                if l.strip() == "+" + b:
+                    skip = True
+                if not skip:
+                    ls.append(l)
+                if l.strip() == "-" + b:
+                    skip = False
+            emit_v("without_" + b.replace("/", "_"), ls)
+    elif hdr_end is not None and "RINEX VERSION / TYPE" in first:             # RINEX
+        add = [("verif: optional record added by the C16 check".ljust(60) + "COMMENT")]
+        markers = [l[60:].strip() for l in lines[:hdr_end]]
+        if "MARKER NUMBER" not in markers:
+            add.append("12345M001".ljust(60) + "MARKER NUMBER")
+        if "LEAP SECONDS" not in markers:
+            add.append("    18".ljust(60) + "LEAP SECONDS")
+        emit_v("with_optional_records", lines[:hdr_end] + add + lines[hdr_end:])
+        opt = sorted(set(markers) - RINEX_ESSENTIAL - {""})
+        for m in rng.sample(opt, min(4, len(opt))):
+            emit_v("without_" + m.replace(" ", "_").replace("/", "").replace("#", "N"),
+                   [l for i, l in enumerate(lines) if not (i < hdr_end and l[60:].strip() == m)])
+    elif hdr_end is not None and "ANTEX VERSION" in first:                  # ANTEX
+        emit_v("with_comment", lines[:hdr_end] + ["verif: comment added by the C16 check".ljust(60) + "COMMENT"] + lines[hdr_end:])
+        for m in ("COMMENT", "SINEX CODE", "VALID UNTIL"):
+            if any(l[60:].strip() == m for l in lines):
+                emit_v("without_" + m.replace(" ", "_"), [l for l in lines if l[60:].strip() != m])
+    elif first.startswith("#c") or first.startswith("#d"):                  # SP3
+        emit_v("comment_text", [("/* VERIF OPTIONAL COMMENT TEXT" if l.startswith("/*") else l) for l in lines])
+        emit_v("empty_comments", [("/*" if l.startswith("/*") else l) for l in lines])
+        k = max((i for i, l in enumerate(lines[:60]) if l.startswith("/*")), default=None)
+        if k is not None:
+            emit_v("one_comment_less", lines[:k] + lines[k + 1:])
+            emit_v("one_comment_more", lines[:k + 1] + ["/* ONE MORE COMMENT LINE"] + lines[k + 1:])
+    # generic text variants
+    is_c = lambda l: l[:1] in "#*%!" and bool(l.strip())
+    if any(is_c(l) for l in lines[1:]):
+        emit_v("without_comment_lines", [l for i, l in enumerate(lines) if i == 0 or not is_c(l)])
+        k = next(i for i, l in enumerate(lines) if i > 0 and is_c(l))
+        emit_v("comment_line_twice", lines[:k + 1] + [lines[k]] + lines[k + 1:])
+    keyed = [i for i, l in enumerate(lines[1:40], 1) if (":" in l[:40] or "=" in l[:40]) and l.strip()]
+    if keyed:
+        k = rng.choice(keyed)
+        emit_v("without_header_line_%d" % (k + 1), lines[:k] + lines[k + 1:])
+    body = [i for i, l in enumerate(lines) if l.strip()]
+    if len(body) > 3:
+        emit_v("without_last_line", lines[:body[-1]] + lines[body[-1] + 1:])
+    return out
+
+
 # ----------------------------------------------------------------------------------------------- histories
 A_SEQ = ["cA", "pA", "mA"]
 B_SEQ = ["cB", "pB"]
@@ -407,6 +486,49 @@ def run(ctx):
         ctx.violation({"kind": "empty_corpus", "skipped": skipped}, what="no parser parses its example file", found=False)
         return ctx.finish(level="proof", rule="empty corpus")
 
+    # ---- variant files: optional header / comment records switched on and off (reference = fresh interpreter per variant)
+    n0 = len(corpus)
+    vdir = os.path.join(ctx.work, "variants")
+    os.makedirs(vdir, exist_ok=True)
+    vjobs = []
+    per_job = 2 if quick else 6
+    done_pf = set()
+    for k, j in enumerate(corpus):
+        if j["args"] or (j["parser"], j["fname"]) in done_pf or os.path.getsize(j["file"]) > VARIANT_MAX_BYTES:
+            continue
+        done_pf.add((j["parser"], j["fname"]))
+        try:
+            text = open(j["file"], encoding="utf8", errors="surrogateescape").read()
+        except OSError:
+            continue
+        # the same derived files for every parser that reads this example (deterministic per file)
+        vr = __import__("random").Random(f"{ctx.seed}:{j['fname']}")
+        for tag, vt in make_variants(text, vr):
+            vname = f"{j['fname']}__{tag}"
+            vpath = os.path.join(vdir, vname)
+            if not os.path.exists(vpath):
+                with open(vpath, "w", encoding="utf8", errors="surrogateescape") as f:
+                    f.write(vt)
+            vjobs.append({"parser": j["parser"], "fname": vname, "file": vpath, "args": {}, "argkey": "{}", "variant_of": k, "tag": tag})
+    vres = pmap(fresh, [(v, "0") for v in vjobs])
+    kept = {}
+    for v, a in zip(vjobs, vres):
+        if "worker_error" in a or "exc" in a or a.get("file_before") != a.get("file_after"):
+            ctx.count("variant:rejected(does not parse)")
+            continue
+        kept.setdefault(v["variant_of"], []).append(dict(v, digest=a["digest"], content=a["file_before"], opaque=a.get("opaque", {}),
+                                                         empty=a["parts"]["data"].startswith("D[0]"), parts=a["parts"]))
+    for k in sorted(kept):
+        vs_ = kept[k]
+        # format-aware "switched on" variants first, then a seeded choice of the others
+        head = [v for v in vs_ if v["tag"].startswith(("datum_", "with_"))][:2]
+        rest = [v for v in vs_ if v not in head]
+        rng.shuffle(rest)
+        for v in (head + rest)[:max(per_job, len(head))]:
+            ctx.count("variant:" + v["tag"].split("_")[0])
+            corpus.append(v)
+    ctx.log(f"variant files: {len(vjobs)} derived, {len(corpus) - n0} kept ({time.time() - t0:.0f}s since start of fresh phase)")
+
     pidx = {n: k for k, n in enumerate(sorted({j["parser"] for j in corpus}))}
     fidx = {f: k for k, f in enumerate(sorted({j["file"] for j in corpus}))}
     aidx = {a: k for k, a in enumerate(sorted({j["argkey"] for j in corpus}))}
@@ -419,7 +541,7 @@ def run(ctx):
     files_term = emit.lst(emit.pair(emit.z(fidx[f]), emit.z(zdig(c))) for f, c in sorted(content_of.items()))
 
     # ---------------------------------------------------------------- C. histories
-    n = len(corpus)
+    n = n0                                  # the general pair / triple loops run over the example-file jobs
     heavy = {k for k, j in enumerate(corpus) if os.path.getsize(j["file"]) > HEAVY_BYTES}
     hist = []          # (label dict, ops)
     base = [0]
@@ -444,6 +566,21 @@ def run(ctx):
             for il in rng.sample(range(NI), k):
                 push({"shape": "pair", "A": a, "B": b_, "interleaving": INTERLEAVINGS[il]},
                      lambda b0, a=a, b_=b_, il=il: pair_history(a, b_, il, b0))
+    # per parser: its example files and their variants - every ordered pair X -> Y -> X (with / without the optional records)
+    groups = {}
+    for k, j in enumerate(corpus):
+        if k >= n0 or not j["args"] or True:
+            groups.setdefault(j["parser"], []).append(k)
+    for pname, members in sorted(groups.items()):
+        if not any(k >= n0 for k in members):
+            continue
+        for a in members:
+            for b_ in members:
+                if a == b_ or (a < n0 and b_ < n0) or (quick and (a in heavy or b_ in heavy)):
+                    continue
+                for il in rng.sample(range(NI), 1 if quick else 4):
+                    push({"shape": "variant_pair", "A": a, "B": b_, "interleaving": INTERLEAVINGS[il]},
+                         lambda b0, a=a, b_=b_, il=il: pair_history(a, b_, il, b0))
     light = [k for k in range(n) if k not in heavy]
     by_fam = {}
     for k in light:
